@@ -31,7 +31,8 @@ pub fn policy_matches<S: Src, const F1: usize, const F2: usize, const K: usize>(
     let nothing_except = s.bool();
     let policy = if nothing_except { DownloadPolicy::NothingExcept(filters) } else { DownloadPolicy::EverythingExcept(filters) };
     let id = RecordIdentifier::new(NamespaceId::from(&[1u8; 32]), AuthorId::from(&[2u8; 32]), key);
-    let entry = Entry::new(id, Record::empty(0));
+    // (a non-empty record: `Record::new` then skips its debug assertion's 32-byte hash comparison)
+    let entry = Entry::new(id, Record::new(iroh_blobs::Hash::from_bytes([7u8; 32]), 1, 0));
     let m1 = if e1 { key[..] == b1[..] } else { key.starts_with(&b1) };
     let m2 = if e2 { key[..] == b2[..] } else { key.starts_with(&b2) };
     let any = (n >= 1 && m1) || (n >= 2 && m2);
